@@ -123,7 +123,7 @@ def lit_int(v):
 
 def clone_val(v):
     k = v.kind
-    if k in ("bv", "bool", "opaque", "str", "ref", "vacant", "box", "slice", "takeparser"):
+    if k in ("bv", "bool", "opaque", "str", "ref", "vacant", "box", "slice", "takeparser", "digest", "fmtarg", "fmtargs"):
         return v
     if k == "u8buf":
         return Val("u8buf", items=list(v.items))
@@ -377,6 +377,9 @@ class Interp:
         m = re.match(r'^"(.*)"$', s)
         if m:
             return Val("str", text=m.group(1))
+        m = re.match(r'^b"(.*)"$', s)
+        if m:
+            return Val("str", text=m.group(1), raw=True)
         m = re.match(r"^ZeroSized: (\{closure@.*\})$", s)
         if m:
             return Val("struct", name=m.group(1), fields=[])
@@ -454,6 +457,11 @@ class Interp:
             r = _SymexExec.binop(None, m.group(1), a, b, False)
             if r.kind == "tuple":
                 return Val("struct", name="(ovf)", fields=[self.fold(x) for x in r.items])
+            if m.group(1) == "Div" and r.kind == "bv":
+                # floor(floor(x / a) / b) == floor(x / (a*b)) for unsigned x: keeps repeated division by a constant out of the bit-blaster
+                mm = re.match(r"^\(bvudiv \(bvudiv (.*) \(_ bv(\d+) (\d+)\)\) \(_ bv(\d+) \d+\)\)$", r.s)
+                if mm and int(mm.group(2)) * int(mm.group(4)) < (1 << int(mm.group(3))) and mm.group(1).count("(") == mm.group(1).count(")"):
+                    r = BV(r.w, "(bvudiv %s %s)" % (mm.group(1), bv(r.w, int(mm.group(2)) * int(mm.group(4)))))
             return self.fold(r)
         m = re.match(r"^(Shl|Shr|ShlUnchecked|ShrUnchecked)\((.*)\)$", rhs)
         if m:
@@ -497,6 +505,10 @@ class Interp:
             return self.operand("%s %s" % (m.group(1), m.group(2)), fr)
         if re.match(r"^(copy|move|const) ", rhs):
             return self.operand(rhs, fr)
+        m = re.match(r"^\[(.*); (\d+)\]$", rhs)
+        if m:
+            e = self.operand(m.group(1), fr)
+            return Val("vec", items=[clone_val(e) for _ in range(int(m.group(2)))])
         m = re.match(r"^\[(.*)\]$", rhs)
         if m:
             return Val("vec", items=[self.operand(x, fr) for x in split_top(m.group(1)) if x.strip()])
@@ -1169,6 +1181,18 @@ class Interp:
                 it.pos[0] += 1
                 return SOME(x)
             return NONE()
+        if re.search(r" as Index<std::ops::RangeFrom<usize>>>::index$| as Index<RangeFrom<usize>>>::index$", c):
+            v = D(a[0])
+            rg = a[1]
+            st = rg.fields[0]
+            if v.kind != "vec":
+                raise Unsupported("range index of " + v.kind)
+            n = len(v.items)
+            inb = self.fold(BOOL("(bvule %s %s)" % (st.s, bv(64, n)))).s
+            if not self.branch(inb, "slice start bound"):
+                raise Panic("panic: range start index out of range for slice of length %d" % n)
+            k = self.concretise(st, "slice start")
+            return Val("vec", items=v.items[k:])
         if re.search(r"slice::<impl \[.*\]>::iter$", c):
             v = D(a[0])
             return Val("iter", items=[Val("ref", lst=v.items, idx=k) for k in range(len(v.items))], pos=[0], sub=None)
